@@ -17,13 +17,17 @@ import (
 	"os"
 	"strconv"
 	"sync"
+	"sync/atomic"
 	"time"
 
 	"github.com/gobwas/ws"
 	"github.com/google/uuid"
 	"github.com/internetarchive/Zeno/internal/pkg/config"
+	"github.com/internetarchive/Zeno/internal/pkg/controler/pause"
+	"github.com/internetarchive/Zeno/internal/pkg/finisher"
 	"github.com/internetarchive/Zeno/internal/pkg/reactor"
 	"github.com/internetarchive/Zeno/internal/pkg/source/hq"
+	"github.com/internetarchive/Zeno/internal/pkg/verifhook"
 	"github.com/internetarchive/Zeno/pkg/models"
 	"github.com/internetarchive/gocrawlhq"
 )
@@ -38,17 +42,21 @@ type QItem struct {
 // QSpec: what the child does.  Steps: "P<k>" produce item k, "W" wait until every outlink produced
 // so far has been accepted by the queue (this is what forces a timer-triggered flush).
 type QSpec struct {
-	BSize   int      `json:"bsize"`   // HQBatchSize (producer batch size, consumer get size)
-	Workers int      `json:"workers"` // WorkersCount (finisher batch size; senders = max(1, workers/10))
-	Items   []QItem  `json:"items"`
-	Steps   []string `json:"steps"`
-	AddF    string   `json:"addf"` // result of the k-th add request: O ok, 5 503, R reset, S stall, L processed but answer lost
-	DelF    string   `json:"delf"`
-	GetF    string   `json:"getf"`
-	Consume bool     `json:"consume"` // the fake HQ hands accepted URLs back out on get
-	Fin     string   `json:"fin"`     // plan for the k-th seed leaving the reactor: digit c = finish with c children, H = hold
-	Dir     string   `json:"dir"`
-	WaitMs  int      `json:"wait_ms"` // watchdog for quiescence
+	BSize       int      `json:"bsize"`   // HQBatchSize (producer batch size, consumer get size)
+	Workers     int      `json:"workers"` // WorkersCount (finisher batch size; senders = max(1, workers/10))
+	Items       []QItem  `json:"items"`
+	Steps       []string `json:"steps"`
+	AddF        string   `json:"addf"` // result of the k-th add request: O ok, 5 503, R reset, S stall, L processed but answer lost
+	DelF        string   `json:"delf"`
+	GetF        string   `json:"getf"`
+	Consume     bool     `json:"consume"` // the fake HQ hands accepted URLs back out on get
+	Fin         string   `json:"fin"`     // plan for the k-th seed leaving the reactor: digit c = finish with c children, H = hold
+	Dir         string   `json:"dir"`
+	WaitMs      int      `json:"wait_ms"`      // watchdog for quiescence
+	PP          string   `json:"pp"`           // outlinks come from the real postprocessor (pptree.go); step "PA" produces them all
+	PPHops      int      `json:"pp_hops"`      // hop count of the seed of that tree
+	RealFin     bool     `json:"real_fin"`     // finished seeds go through the REAL finisher stage (finisher.Start workers)
+	PauseOutage bool     `json:"pause_outage"` // pause.Pause()/Resume() once a finisher worker is stuck handing a seed to the source
 }
 
 type QEvent struct {
@@ -71,6 +79,10 @@ type QResult struct {
 	TimedOut bool     `json:"timed_out"`
 	Panic    string   `json:"panic,omitempty"`
 	Notes    []string `json:"notes,omitempty"`
+	// a pause was issued while a finisher worker was blocked on the hand-over and the last DELETE had failed
+	PauseDuringOutage bool `json:"pause_during_outage,omitempty"`
+	PauseIssued       bool `json:"pause_issued,omitempty"`
+	ResumeReturned    bool `json:"resume_returned,omitempty"`
 }
 
 type fakeHQ struct {
@@ -292,14 +304,87 @@ func runHQChild(spec *QSpec) (res QResult) {
 	c.WorkersCount = spec.Workers
 	c.UseHQ = true
 
+	var ppOuts []ppOut
+	if spec.PP != "" {
+		var err error
+		if ppOuts, err = buildOutlinks(spec.PP, spec.PPHops, spec.Dir); err != nil {
+			panic("pp tree: " + err.Error())
+		}
+	}
+
 	reactorOut := make(chan *models.Item)
 	finishCh := make(chan *models.Item)
 	produceCh := make(chan *models.Item)
-	if err := reactor.Start(len(spec.Items)+8, reactorOut); err != nil {
+	if err := reactor.Start(len(spec.Items)+len(ppOuts)+8, reactorOut); err != nil {
 		panic(err)
 	}
 	if err := hq.Start(finishCh, produceCh); err != nil {
 		panic(err)
+	}
+
+	// real finisher stage: its workers do CompleteAndCheck, MarkAsFinished and the hand-over to the
+	// source; the hook points around the hand-over tell when a worker is stuck in it
+	finIn := make(chan *models.Item)
+	var finFinished, finNotified int64
+	if spec.RealFin {
+		verifhook.SetHandler(func(point string, arg any) {
+			switch point {
+			case "fin.finished":
+				seed := arg.(*models.Item)
+				f.mu.Lock()
+				f.log(QEvent{K: "F", ID: hx(seed.GetID()), N: 0})
+				f.mu.Unlock()
+				atomic.AddInt64(&finFinished, 1)
+			case "fin.notified":
+				atomic.AddInt64(&finNotified, 1)
+			}
+		})
+		if err := finisher.Start(finIn, finishCh, produceCh); err != nil {
+			panic(err)
+		}
+	}
+	resumeDone := make(chan struct{})
+	if spec.RealFin && spec.PauseOutage {
+		go func() {
+			defer close(resumeDone)
+			stuckSince := time.Time{}
+			for {
+				time.Sleep(20 * time.Millisecond)
+				if time.Since(f.t0) > time.Duration(spec.WaitMs)*time.Millisecond {
+					return
+				}
+				if atomic.LoadInt64(&finFinished) > atomic.LoadInt64(&finNotified) {
+					if stuckSince.IsZero() {
+						stuckSince = time.Now()
+					}
+				} else {
+					stuckSince = time.Time{}
+				}
+				if stuckSince.IsZero() || time.Since(stuckSince) < 250*time.Millisecond {
+					continue
+				}
+				// a worker has been stuck in the hand-over for a quarter of a second
+				f.mu.Lock()
+				lastDel := ""
+				for _, e := range f.events {
+					if e.K == "D" {
+						lastDel = e.Res
+					}
+				}
+				res.PauseIssued = true
+				res.PauseDuringOutage = lastDel != "" && lastDel != "O"
+				f.mu.Unlock()
+				pause.Pause("verif: pause during HQ outage")
+				time.Sleep(300 * time.Millisecond)
+				pause.Resume() // returns once every worker has gone through its pause arm
+				f.mu.Lock()
+				res.ResumeReturned = true
+				f.mu.Unlock()
+				return
+			}
+		}()
+	} else {
+		close(resumeDone)
 	}
 
 	// the part of the finisher stage that talks to the source: a seed leaves the reactor, is
@@ -331,7 +416,26 @@ func runHQChild(spec *QSpec) (res QResult) {
 				for j := 0; j < nch; j++ {
 					cu := &models.URL{Raw: fmt.Sprintf("http://child.test/%d", j)}
 					cu.Parse()
-					seed.AddChild(models.NewItem(uuid.NewString(), cu, ""), models.ItemGotChildren)
+					ch := models.NewItem(uuid.NewString(), cu, "")
+					seed.AddChild(ch, models.ItemGotChildren)
+					if spec.RealFin {
+						ch.SetStatus(models.ItemCompleted)
+					}
+				}
+				if spec.RealFin {
+					// as it leaves the postprocessor: nothing left to do in its tree
+					if nch == 0 {
+						seed.SetStatus(models.ItemCompleted)
+					}
+					plannedMu.Lock()
+					planned++
+					plannedMu.Unlock()
+					select {
+					case finIn <- seed:
+					case <-stopSeeds:
+						return
+					}
+					continue
 				}
 				if err := reactor.MarkAsFinished(seed); err != nil {
 					panic(err)
@@ -376,25 +480,44 @@ func runHQChild(spec *QSpec) (res QResult) {
 			}
 			continue
 		}
-		k, _ := strconv.Atoi(st[1:])
-		it := spec.Items[k]
-		v, _ := hex.DecodeString(it.V)
-		via, _ := hex.DecodeString(it.Via)
-		item := models.NewItem(uuid.NewString(), &models.URL{Raw: string(v), Hops: it.Hops}, string(via))
-		f.mu.Lock()
-		f.log(QEvent{K: "R", I: k})
-		f.mu.Unlock()
-		sent := make(chan struct{})
-		go func() { produceCh <- item; close(sent) }()
-		select {
-		case <-sent:
-		case <-time.After(time.Until(deadline)):
-			res.TimedOut = true
+		type prod struct {
+			item *models.Item
+			ev   QEvent
+		}
+		var todo []prod
+		if st == "PA" {
+			// everything the real postprocessor returned, as it returned it; the event carries what
+			// the property expects: link text, URL and hop count of the item whose document had it
+			for k, o := range ppOuts {
+				todo = append(todo, prod{o.item, QEvent{K: "R", I: k, V: hx(o.text), Via: hx(o.docURL), Hops: o.docHops}})
+			}
+		} else {
+			k, _ := strconv.Atoi(st[1:])
+			it := spec.Items[k]
+			v, _ := hex.DecodeString(it.V)
+			via, _ := hex.DecodeString(it.Via)
+			todo = append(todo, prod{models.NewItem(uuid.NewString(), &models.URL{Raw: string(v), Hops: it.Hops}, string(via)), QEvent{K: "R", I: k}})
+		}
+		for _, pr := range todo {
+			item := pr.item
+			f.mu.Lock()
+			f.log(pr.ev)
+			f.mu.Unlock()
+			sent := make(chan struct{})
+			go func() { produceCh <- item; close(sent) }()
+			select {
+			case <-sent:
+			case <-time.After(time.Until(deadline)):
+				res.TimedOut = true
+			}
+			if res.TimedOut {
+				break
+			}
+			produced++
 		}
 		if res.TimedOut {
 			break
 		}
-		produced++
 	}
 
 	// quiescence: every outlink accepted; when consuming, every accepted URL handed out again,
@@ -448,6 +571,10 @@ func runHQChild(spec *QSpec) (res QResult) {
 	}
 	// let late duplicate requests (a second delivery of something already acknowledged) show up
 	time.Sleep(150 * time.Millisecond)
+	select {
+	case <-resumeDone:
+	case <-time.After(time.Until(deadline) + time.Second):
+	}
 	close(stopSeeds)
 	<-seedsDone
 	return res
